@@ -109,6 +109,10 @@ def _pad_face_connections(
         _get_all_connection_axes(connections, facedim) + list(padding_width.keys())
     )
     pad_axes = [axname for axname in grid.axes if axname in axes_to_pad]
+    for axname in axes_to_pad:
+        if axname not in grid.axes:
+            # an axis the grid lacks is refused, as on a grid without face connections
+            raise KeyError(f"Did not find axis {axname!r} in grid")
 
     padding_width = {axname: padding_width.get(axname, (0, 0)) for axname in pad_axes}
 
